@@ -8,7 +8,6 @@ import (
 	"os/exec"
 	"path/filepath"
 	"regexp"
-	"sort"
 	"strings"
 	"testing"
 	"time"
@@ -167,19 +166,33 @@ func checkC18(h *harness.H, ci interface{}) *harness.Failure {
 		}
 	}
 	if len(labels) != len(c.Labels) {
-		// the CLI ends a run on a 50 ms heartbeat timer; a loaded machine can cut it short: retry alone
-		r2 := runCLI(h, dir, c)
-		l2 := printedLabels(r2.stdout)
-		sort.Strings(l2)
-		if strings.Join(l2, " ") != strings.Join(c.Labels, " ") {
-			r3 := runCLI(h, dir, c)
-			l3 := printedLabels(r3.stdout)
-			sort.Strings(l3)
-			if strings.Join(l3, " ") != strings.Join(c.Labels, " ") {
-				return harness.Failf("the executed program printed [%s] (three attempts), its semantics gives [%s]\n%s", strings.Join(l3, " "), strings.Join(c.Labels, " "), desc())
+		// The command ends a run when no process has moved for 50 ms (HeartbeatReceiver); on a loaded
+		// machine that cuts runs short at arbitrary points. Retry; every attempt is still checked for
+		// invented output. A run that stays short is no verdict (C18 does not promise completion;
+		// lost output is C04's business, decided there with exact quiescence).
+		for attempt := 2; attempt <= 5; attempt++ {
+			r2 := runCLI(h, dir, c)
+			l2 := printedLabels(r2.stdout)
+			left := map[string]int{}
+			for _, l := range c.Labels {
+				left[l]++
+			}
+			for _, l := range l2 {
+				left[l]--
+				if left[l] < 0 {
+					return harness.Failf("the program printed %q more often than its semantics allows (expected multiset [%s]; attempt %d)\n%s", l, strings.Join(c.Labels, " "), attempt, desc())
+				}
+			}
+			if r2.status != 0 {
+				return harness.Failf("parsing and typechecking succeed (library verdict), but the command exits with status %d on attempt %d\n%s", r2.status, attempt, desc())
+			}
+			if len(l2) == len(c.Labels) {
+				h.S.Count("short_run_recovered_on_retry")
+				return nil
 			}
 		}
-		h.S.Count("short_run_recovered_on_retry")
+		h.S.Count("run_cut_short_by_heartbeat_timer_in_5_attempts")
+		return &harness.Failure{Inconclusive: true}
 	}
 	return nil
 }
